@@ -61,10 +61,15 @@ package backend
 // order, exactly-once across pages.
 //@ func contains
 //@   pure
+// belowSkipped: some path element of root is one of the skipped names (an element equal to such a name makes it true)
+//@ func belowSkipped
+//@   pure
 //@ func Walk
 //@   frame none
 //@   requires {C07} [max-keys-is-a-count] max >= 0
 //@   let pageInv = len(objects) + len(cpmap) <= max && (pastMax <==> len(objects) + len(cpmap) == max) && (pastMax ==> newMarker != "") && (truncated ==> pastMax)
+// internal bookkeeping names never appear: the walk starts neither at nor below a directory it skips
+//@   at-call fs.WalkDir {C07,C08} [the-walk-does-not-start-below-a-skipped-directory] requires !belowSkipped($1, skipdirs)
 //@   at-call fs.WalkDir {C07} [page-state-initialised] requires pageInv
 //@   after-call fs.WalkDir {C07} [page-state-kept-by-the-callback] invariant pageInv
 //@   ensures {C07} [at-most-max-keys-objects] err == nil ==> len(ret0.Objects) <= max
